@@ -70,6 +70,7 @@ partial def loop (h : IO.FS.Stream) (out : IO.FS.Stream) (f : Json → Except St
         | .ok o => o
         | .error e => Json.mkObj [("bad", toJson e)]
     out.putStrLn (Json.compress res)
+    out.flush   -- one flush per case, so that a dying driver loses nothing but the case it died on
     loop h out f
 
 def run (f : Json → Except String Json) : IO Unit := do
